@@ -26,7 +26,8 @@ RULE = ('every (key, group, chain id) of the universe is signed once; distinct =
 BOUND = {
     'quick': '2 keys per curve (tz1..tz4) x {10 non-consensus kinds + endorsement (3 levels) + endorsement_with_slot, 9 same-pass '
              'batches of 2}; chain id None or mainnet for non-consensus, {mainnet, 00000000} for consensus; per curve one in-process sequence in '
-             'which the keys sign alternately (A B A B)',
+             'which the keys sign alternately (A B A B); every third group (tz4: the first) also signed when it already carries the '
+             'signature of the same contents on another branch (given to the constructor / inherited through _spawn)',
     'thorough': '3 keys per curve (incl. order-1) x {up to 8 variants of each of the 10 non-consensus kinds, 4 consensus contents x 3 chain '
                 'ids, all 64 ordered manager-kind pairs + activate_account pair}; tz4 keys: 3 variants per kind and the 8 cyclic pairs',
 }
@@ -188,6 +189,12 @@ def all_cases(tier: str, curve: str, ki: int):
         for ch in chains:
             yield {'curve': curve, 'key': encoded_secret(curve, ki), 'chain_id': ch,
                    'group': {'branch': c06.BRANCHES[n % 2], 'contents': cs}}
+            if n % 3 == 0 and (curve != 'BL' or n == 0):
+                # history: the group already carries a signature (of the same contents on ANOTHER branch, as a group derived from
+                # a signed one does) when sign() is called; 'how' = through the constructor or through signed._spawn(branch=..)
+                for how in ('ctor', 'spawn'):
+                    yield {'curve': curve, 'key': encoded_secret(curve, ki), 'chain_id': ch, 'presigned': how,
+                           'group': {'branch': c06.BRANCHES[n % 2], 'contents': cs}}
             if ch is not None and cs[0]['kind'] in CONSENSUS:
                 # the client's context already knows ANOTHER chain: the watermark must use the group's own chain id
                 other = next(c for c in CHAIN_IDS if c != ch)
@@ -242,6 +249,18 @@ def run_case(case):
                          protocol=PROTOCOL, chain_id=case['chain_id'], branch=g['branch'])
     forged = bytes.fromhex(opg.forge())
     obs['forged'] = forged.hex()
+    if case.get('presigned'):
+        other_branch = next(b for b in c06.BRANCHES if b != g['branch'])
+        try:
+            earlier = OperationGroup(context=opg.context, contents=[dict(c) for c in g['contents']], protocol=PROTOCOL,
+                                     chain_id=case['chain_id'], branch=other_branch).sign()
+            if case['presigned'] == 'spawn':
+                opg = earlier._spawn(branch=g['branch'])
+            else:
+                opg = OperationGroup(context=opg.context, contents=[dict(c) for c in g['contents']], protocol=PROTOCOL,
+                                     chain_id=case['chain_id'], branch=g['branch'], signature=earlier.signature)
+        except Exception as e:  # noqa
+            return [(f'{TZ[curve]}: building a group from an already signed one raised {type(e).__name__}', f'{e!r}')], obs
     wm = (b'\x02' + b58.dec('Net', case['chain_id'])) if consensus else b'\x03'
     wname = '0x02||chain_id||forged' if consensus else '0x03||forged'
     try:
@@ -294,7 +313,7 @@ def run_shard(spec, tier):
         if curve != 'ed' or consensus or len(kinds) > 1:
             r.nt((curve, case['key'], obs['forged'], case['chain_id'] if consensus else None))
         cls = 'consensus' if consensus else ('manager' if kinds[0] in c06.MANAGER else kinds[0])
-        r.out(f'{TZ[curve]}/{cls}/{len(kinds)}: ' + ('signed, verified, hashed' if not vs else vs[0][0].split(': ', 1)[1]))
+        r.out(f'{TZ[curve]}/{cls}/{len(kinds)}{"/presigned" if case.get("presigned") else ""}: ' + ('signed, verified, hashed' if not vs else vs[0][0].split(': ', 1)[1]))
         for d, detail in vs:
             r.viol(d, case, detail)
         if r.evaluations == 1:
